@@ -8,7 +8,7 @@ from eth_hash.auto import keccak
 from trie import HexaryTrie
 from trie.exceptions import BadTrieProof
 
-from ..core import HarnessError, Violation, deep, hx, unhx
+from ..core import HarnessError, Violation, deep, fresh, hx, unhx
 from ..hgen import HistoryGen, make_pool, make_values, probe_keys
 from ..hworld import HWorld
 from ..models.mpt import BLANK_ROOT, RefMPT, nibbles_of, rlp_any
@@ -128,7 +128,7 @@ class World(HWorld):
         if contents is None:
             return "skip"
         key = unhx(cmd["k"])
-        prover = HexaryTrie(self.db, root)
+        prover = HexaryTrie(self.db, fresh(root))
         status, proof = self.call(prover.get_proof, key)
         if status == "exc":
             self.viol("proof-incomplete", f"get_proof({key.hex()}) on a complete database raised {proof!r}")
@@ -330,7 +330,7 @@ def gen_fault(rng, pool, probes):
 
 
 def generate(rng):
-    pool = make_pool(rng, size=rng.choice([3, 4, 5, 6, 8, 10, 12, 16, 24]))
+    pool = make_pool(rng, size=rng.choice([3, 4, 5, 6, 8, 10, 12, 16, 24]), style="comb" if rng.random() < 0.05 else None)
     values = make_values(rng)
     probes = probe_keys(rng, pool, extra=3)
     g = HistoryGen(rng, pool, values, probes, batches=True, aborts=False, reopen=True, lookups=(0, 0))
